@@ -18,7 +18,7 @@ lexeme if it is one of the strings `css.ToHash` knows (`Gen.C04Tables.hashNames`
 -/
 set_option maxRecDepth 100000
 namespace Verif.Model.Css
-open Verif.Spec.CssValue (TT Tok lower isWs)
+open Verif.Spec.CssValue (TT Tok lower isWs splitOn)
 open Verif.Gen.C04Tables
 open Verif.Model.CssNum
 
@@ -334,6 +334,25 @@ def minifyTokens (o : Opts) (prop : List Char) (vs : List Tok) : Option (List To
 
 /-! ## minifyColor -/
 
+/-- a hash lexeme with everything behind `#` lower-cased (`parse.ToLower(data[1:])`) -/
+def lowerTail : List Char → List Char
+  | c :: r => c :: lower r
+  | [] => []
+
+/-- `#rrggbbff` → `#rrggbb`, `#rrggbb00` → `#0000` -/
+def trimAlpha (data : List Char) : List Char :=
+  match data with
+  | [h, a, b, c, d, e, f, x, y] =>
+    if x == y then (if x == 'f' then [h, a, b, c, d, e, f] else if x == '0' then S "#0000" else data) else data
+  | _ => data
+
+/-- `#aabbcc` → `#abc`, `#aabbccdd` → `#abcd` -/
+def shortHex (data : List Char) : List Char :=
+  match data with
+  | [h, a, a', b, b', c, c'] => if a == a' && b == b' && c == c' then [h, a, b, c] else data
+  | [h, a, a', b, b', c, c', d, d'] => if a == a' && b == b' && c == c' && d == d' then [h, a, b, c, d] else data
+  | _ => data
+
 /-- `minifyColor` (css.go) -/
 def minifyColor (t : Tok) : Tok :=
   match t.tt with
@@ -342,21 +361,10 @@ def minifyColor (t : Tok) : Tok :=
     | some hex => tHash hex
     | none => t
   | .hash =>
-    let data := match t.data with | c :: r => c :: lower r | [] => []
-    let data :=
-      match data with
-      | [h, a, b, c, d, e, f, x, y] =>
-        if x == y then (if x == 'f' then [h, a, b, c, d, e, f] else if x == '0' then S "#0000" else data) else data
-      | _ => data
+    let data := trimAlpha (lowerTail t.data)
     match shortenColorHex.lookup data with
     | some name => .mk .ident name t.args
-    | none =>
-      match data with
-      | [h, a, a', b, b', c, c'] =>
-        if a == a' && b == b' && c == c' then .mk .hash [h, a, b, c] t.args else .mk .hash data t.args
-      | [h, a, a', b, b', c, c', d, d'] =>
-        if a == a' && b == b' && c == c' && d == d' then .mk .hash [h, a, b, c, d] t.args else .mk .hash data t.args
-      | _ => .mk .hash data t.args
+    | none => .mk .hash (shortHex data) t.args
   | _ => t
 
 /-! ## comma separated layers -/
@@ -404,13 +412,6 @@ def isIdentBytes (b : List Char) : Bool :=
   match b' with
   | c :: r => start c && r.all cont
   | [] => false
-
-def splitOn (c : Char) : List Char → List (List Char)
-  | [] => [[]]
-  | x :: r =>
-    match splitOn c r with
-    | [] => [[]]
-    | h :: t => if x == c then [] :: h :: t else (x :: h) :: t
 
 /-- `font-family`: `none` = a string with a backslash (outside the model) -/
 def minifyFontFamilyTok (t : Tok) : Option Tok :=
@@ -484,7 +485,7 @@ def minifyFlex : List Tok → List Tok
 
 /-! ### unicode-range -/
 
-def hexDigitVal (c : Char) : Option Nat :=
+def urHexDigit (c : Char) : Option Nat :=
   if '0' ≤ c && c ≤ '9' then some (c.toNat - 48)
   else
     let l := Char.ofNat (c.toNat ||| 32)
@@ -498,13 +499,13 @@ def urScanStart : List Char → Nat → Nat → Nat → Nat × Nat × List Char
     if c == '-' then (start, iw, c :: r)
     else
       let start := start * 16
-      match hexDigitVal c with
+      match urHexDigit c with
       | some d => urScanStart r (i + 1) (start + d) iw
       | none => urScanStart r (i + 1) start (if iw == 0 && c == '?' then i else iw)
 
 def urScanEnd : List Char → Nat → Nat
   | [], e => e
-  | c :: r, e => urScanEnd r (e * 16 + (hexDigitVal c).getD 0)
+  | c :: r, e => urScanEnd r (e * 16 + (urHexDigit c).getD 0)
 
 /-- the `[start, end]` pair the code computes for one unicode-range lexeme (`U+…`); `none` = reversed range
     (`end < start`): the whole value is returned unchanged -/
